@@ -174,8 +174,20 @@ def c19_check():
             corpus = os.path.join(d, "corpus"); art = os.path.join(d, "art")
             os.makedirs(corpus, exist_ok=True); os.makedirs(art, exist_ok=True)
             env = {"VERIF_STATS": os.path.join(d, "stats.json"), "VERIF_SEED": str(mix(seed, 100 + i)), "ASAN_OPTIONS": "detect_leaks=1:allocator_may_return_null=1", "UBSAN_OPTIONS": "print_stacktrace=1"}
-            if i % 2 == 0:
-                env["VERIF_SEED_CORPUS"] = corpus
+            if i % 3 == 0:
+                env["VERIF_SEED_CORPUS"] = corpus          # a few generated valid histories
+            elif i % 3 == 1:                               # the committed corpus of an earlier 12 core-hour campaign (set-cover minimised): a sample in the quick tier, all of it in the thorough tier
+                import tarfile, random
+                tgz = os.path.join(os.path.dirname(os.path.dirname(os.path.abspath(__file__))), "corpus", "c19_histories.tgz")
+                if os.path.exists(tgz):
+                    with tarfile.open(tgz) as tf:
+                        members = [m for m in tf.getmembers() if m.isfile()]
+                        if quick:
+                            random.Random(mix(seed, 500 + i)).shuffle(members)
+                            members = members[:250]
+                        for m in members:
+                            m.name = os.path.basename(m.name)
+                            tf.extract(m, corpus)
             jobs.append(dict(argv=[os.path.join(BIN, "fuzz_hist.asanexc"), f"-max_total_time={T}", f"-seed={1 + mix(seed, i) % 2000000000}", "-max_len=1280", "-len_control=0", "-detect_leaks=1", "-timeout=120", "-rss_limit_mb=4096",
                                    f"-artifact_prefix={art}/", corpus], out=os.path.join(d, "stats.json"), faildir=d, env=env, own_artifacts=True, art=art))
         for i in range(5):
